@@ -506,3 +506,39 @@ package io
 //@   loop 1 invariant [memory_bytes] dec.reader == nil ==> forall(j, mem(dec.buf, j) == old(mem(dec.buf, j)))
 //@   loop 1 invariant [sticky] old(dec.Error) != nil ==> dec.Error != nil
 //@   loop 1 invariant [bufid] arr(dec.buf) == old(arr(dec.buf)) || isnew(arr(dec.buf))
+
+// ---- reuse: nothing of one use is visible in the next (C14) -------------------------------
+
+//@ func (*Decoder).Reset
+//@   prop C14 C04
+//@   nopanic
+//@   requires dec != nil
+//@   modifies dec.refer.ref, dec.ref
+//@   ensures [class_table_is_empty] result == dec && len(dec.ref) == 0
+//@   ensures [reference_table_is_empty_in_reference_mode] !dec.simple ==> len(dec.refer.ref) == 0
+
+//@ func (*Decoder).Simple
+//@   prop C14 C04
+//@   nopanic
+//@   requires dec != nil
+//@   modifies dec.simple, dec.refer.ref, dec.ref
+//@   ensures [mode_set_and_tables_empty] result == dec && dec.simple == simple && len(dec.ref) == 0 && (!simple ==> len(dec.refer.ref) == 0)
+
+// a decoder goes back to the pool with no input, no error, no references, no class table and
+// default options; the pool's New makes a zero Decoder, which is the same state
+//@ func FreeDecoder
+//@   prop C14
+//@   nopanic
+//@   requires decoder != nil
+//@   modifies decoder.simple, decoder.refer.ref, decoder.ref, decoder.reader, decoder.buf, decoder.head, decoder.tail, decoder.Error,
+//@       decoder.RealType, decoder.LongType, decoder.MapType, decoder.StructType, decoder.ListType
+//@   atcall Put [decoder_is_clean_when_it_returns_to_the_pool] !decoder.simple && len(decoder.refer.ref) == 0 && len(decoder.ref) == 0 &&
+//@       decoder.reader == nil && decoder.head == 0 && decoder.tail == 0 && decoder.Error == nil &&
+//@       decoder.RealType == 0 && decoder.LongType == 0 && decoder.MapType == 0 && decoder.StructType == 0 && decoder.ListType == 0
+//@   atcall Put [callers_input_is_released] old(decoder.reader) == nil ==> decoder.buf == nil
+
+// (assumed, by the pool invariant FreeDecoder maintains) a pooled decoder is clean
+//@ func GetDecoder
+//@   nopanic
+//@   ensures result != nil && !result.simple && len(result.refer.ref) == 0 && len(result.ref) == 0 && result.reader == nil && result.head == 0 && result.tail == 0 &&
+//@       result.Error == nil && (result.buf == nil || len(result.buf) > 0)
